@@ -16,6 +16,16 @@ use crate::runner::{violation, RunCtx, RunReport, Stats, Verdict};
 const RACE: u64 = 200 * NS_PER_MS;
 const HOST: &str = "multi.test";
 
+/// (no draw) the name the main scenario's plan is reached under: a name is a name, the addresses are the resolver's -
+/// also for names under `localhost` (containers and development set-ups resolve them to whatever they like)
+fn host_of(p: &Plan) -> &'static str {
+    match (p.ct_ms as usize / 50 + p.addrs.len()) % 5 {
+        0 => "app.localhost",
+        1 => "db.cluster.LOCALHOST",
+        _ => HOST,
+    }
+}
+
 #[derive(Clone, Debug)]
 struct Addr {
     ip: IpAddr,
@@ -192,7 +202,7 @@ struct Obs {
 
 fn caller(p: &Plan) -> Obs {
     let start = attosim::now_ns();
-    let mut rb = attohttpc::get(format!("{}://{}/", if p.https { "https" } else { "http" }, HOST)).danger_accept_invalid_certs(true).connect_timeout(if p.ct_max { Duration::MAX } else { Duration::from_millis(p.ct_ms) }).read_timeout(Duration::from_secs(5));
+    let mut rb = attohttpc::get(format!("{}://{}/", if p.https { "https" } else { "http" }, host_of(p))).danger_accept_invalid_certs(true).connect_timeout(if p.ct_max { Duration::MAX } else { Duration::from_millis(p.ct_ms) }).read_timeout(Duration::from_secs(5));
     if let Some(t) = p.t_ms {
         rb = rb.timeout(Duration::from_millis(t));
     }
@@ -333,6 +343,14 @@ fn two_hop_family(g: &mut G, ctx: &RunCtx) -> RunReport {
                     best = best.min(t1 + i as u64 * RACE + latency_ns);
                 }
             }
+        }
+        // every attempt of the second connection has the whole connect timeout (there is no overall deadline): what
+        // the first connection spent is spent
+        if let Some(c) = hop2.iter().find(|c| c.timeout_ns != ct) {
+            return violation(
+                "second-connection-attempt-timeout",
+                format!("second connection: {} was dialled with a timeout of {}ms, connect_timeout is {}ms ({})", c.addr, c.timeout_ns / NS_PER_MS, ct / NS_PER_MS, desc),
+            );
         }
         for (i, c) in hop2.iter().enumerate() {
             if i < order.len() && c.addr.ip() != order[i] {
@@ -554,10 +572,10 @@ pub fn scenario(g: &mut G, ctx: &RunCtx) -> RunReport {
     let p = if g.chance(1, 16) { long_list_plan(g) } else { p };
     let sim = Sim::new(ctx.sim_config());
     if p.resolvable {
-        sim.add_host(HOST, p.addrs.iter().map(|a| a.ip).collect());
+        sim.add_host(host_of(&p), p.addrs.iter().map(|a| a.ip).collect());
     }
     if p.dns_ms > 0 {
-        sim.set_dns_latency(HOST, p.dns_ms * NS_PER_MS);
+        sim.set_dns_latency(host_of(&p), p.dns_ms * NS_PER_MS);
         g.probe("slow-name-lookup");
     }
     let seen = Arc::new(Mutex::new(Seen::default()));
